@@ -165,7 +165,9 @@ func sortedKeys[V any](m map[string]V) []string {
 // is reachable (the callee is, or can reach, a primitive).
 func (p *Prog) writeSitesIn(f *ssa.Function) []ssa.CallInstruction {
 	var out []ssa.CallInstruction
-	for _, g := range withAnons(f) {
+	// call sites of f itself (and its closures) through which a file mutation is reachable;
+	// helpers are not expanded here: the call of the helper is the site
+	for _, g := range plainWithAnons(f) {
 		eachInstr(g, func(in ssa.Instruction) {
 			c, ok := in.(ssa.CallInstruction)
 			if !ok {
